@@ -25,6 +25,32 @@ def log_call(n) -> bool:
     return False
 
 
+def _prime_implicants(conjs):
+    """A disjunction of conjunctions of literals (text, polarity) brought to a canonical form that does not depend on
+    iteration order: the consensus of every pair that clashes in exactly one literal is added, then absorbed
+    conjunctions are dropped, to a fixpoint (the prime implicants; bounded, falling back to plain absorption)."""
+    res = {frozenset(c) for c in conjs}
+    if len(res) > 96:
+        return {a for a in res if not any(b < a for b in res)}
+    for _round in range(16):
+        new = set()
+        lst = sorted(res, key=lambda c: sorted(c))
+        for i in range(len(lst)):
+            for j in range(i + 1, len(lst)):
+                a, b = lst[i], lst[j]
+                clash = [l for l in a if (l[0], not l[1]) in b]
+                if len(clash) != 1:
+                    continue
+                c = frozenset(x for x in (a | b) if x[0] != clash[0][0])
+                if not any(r <= c for r in res):
+                    new.add(c)
+        if not new or len(res) + len(new) > 600:
+            break
+        res |= new
+        res = {a for a in res if not any(b < a for b in res)}
+    return {a for a in res if not any(b < a for b in res)}
+
+
 class FA:
     def __init__(self, ck, qual_or_fi, exc_mode: Optional[str] = None):
         self.ck = ck
@@ -360,34 +386,7 @@ class FA:
         dfs(cfg.entry, {cfg.entry}, [])
         if count[0] > cap:
             return None
-        # resolution + absorption
-        res = set(results)
-        changed = True
-        while changed:
-            changed = False
-            lst = list(res)
-            for i in range(len(lst)):
-                for j in range(i + 1, len(lst)):
-                    a, b = lst[i], lst[j]
-                    diff = a ^ b
-                    if len(diff) == 2:
-                        x, y = tuple(diff)
-                        if x[0] == y[0] and x[1] != y[1]:
-                            new = a & b
-                            if new not in res:
-                                res.add(new)
-                            res.discard(a)
-                            res.discard(b)
-                            changed = True
-                            break
-                if changed:
-                    break
-            if not changed:
-                for a in list(res):
-                    if any(b < a for b in res):
-                        res.discard(a)
-                        changed = True
-        return res
+        return _prime_implicants(results)
 
     def outcomes(self, target_text: str, cap: int = 4000):
         """What a name / attribute finally holds when the function returns normally, per path class:
@@ -459,30 +458,7 @@ class FA:
             return None
         out = []
         for txt, conds in res.items():
-            cs = set(conds)
-            changed = True
-            while changed:
-                changed = False
-                lst = list(cs)
-                for i in range(len(lst)):
-                    for j in range(i + 1, len(lst)):
-                        a, b = lst[i], lst[j]
-                        diff = a ^ b
-                        if len(diff) == 2:
-                            x, y = tuple(diff)
-                            if x[0] == y[0] and x[1] != y[1]:
-                                cs.discard(a)
-                                cs.discard(b)
-                                cs.add(a & b)
-                                changed = True
-                                break
-                    if changed:
-                        break
-                if not changed:
-                    for a in list(cs):
-                        if any(b < a for b in cs):
-                            cs.discard(a)
-                            changed = True
+            cs = _prime_implicants(conds)
             for c in cs:
                 out.append((c, txt))
         return out
